@@ -92,8 +92,8 @@ def StreamModel.expected (m : StreamModel) : List (Nat × List DemuxerData) :=
   (l.toArray.qsort (fun a b => a.1 < b.1)).toList
 
 /-- canonical "per PID" view shared with the harness -/
-def showPerPID (l : List (Nat × List DemuxerData)) (errors : Nat) (ending : String) : String :=
+def showPerPID (l : List (Nat × List DemuxerData)) (errors : Nat) (ending : String) (noErr : Bool := false) : String :=
   ";".intercalate ((l.filter (fun e => !e.2.isEmpty)).map fun (pid, ds) => s!"pid={pid}:{jarr (ds.map DemuxerData.toJson)}")
-    ++ s!";errors={errors};end={ending}"
+    ++ (if noErr then "" else s!";errors={errors};end={ending}")
 
 end Astits.Spec
